@@ -9,7 +9,7 @@ Definition gen_finish_request (P : prims) : M :=
   (bind (p_fin_pending P) (fun b_1 => if truthy b_1 then (seq (gen_process_finished_callbacks P) (ret 0)) else (ret 0))).
 (* pyramid/router.py:Router.invoke_request *)
 Definition gen_invoke_request (P : prims) (tw : bool) : M :=
-  (if tw then (finally (bind (p_handle_tweens P) (fun response_1 => (bind (p_resp_pending P) (fun b_4 => if truthy b_4 then (seq (gen_process_response_callbacks P) (seq (bind (p_has_listeners P) (fun b_2 => if truthy b_2 then (p_notify_newresponse P) else ret b_2)) (ret response_1))) else (seq (bind (p_has_listeners P) (fun b_3 => if truthy b_3 then (p_notify_newresponse P) else ret b_3)) (ret response_1)))))) (seq (gen_finish_request P) (ret 0))) else (finally (bind (p_handle_orig P) (fun response_5 => (bind (p_resp_pending P) (fun b_8 => if truthy b_8 then (seq (gen_process_response_callbacks P) (seq (bind (p_has_listeners P) (fun b_6 => if truthy b_6 then (p_notify_newresponse P) else ret b_6)) (ret response_5))) else (seq (bind (p_has_listeners P) (fun b_7 => if truthy b_7 then (p_notify_newresponse P) else ret b_7)) (ret response_5)))))) (seq (gen_finish_request P) (ret 0)))).
+  (if tw then (finally (bind (p_handle_tweens P) (fun response_1 => (bind (p_resp_pending P) (fun b_3 => if truthy b_3 then (seq (gen_process_response_callbacks P) (seq (bind (p_has_listeners P) (fun b_2 => if truthy b_2 then (p_notify_newresponse P) else ret b_2)) (ret response_1))) else (seq (bind (p_has_listeners P) (fun b_2 => if truthy b_2 then (p_notify_newresponse P) else ret b_2)) (ret response_1)))))) (seq (gen_finish_request P) (ret 0))) else (finally (bind (p_handle_orig P) (fun response_1 => (bind (p_resp_pending P) (fun b_3 => if truthy b_3 then (seq (gen_process_response_callbacks P) (seq (bind (p_has_listeners P) (fun b_2 => if truthy b_2 then (p_notify_newresponse P) else ret b_2)) (ret response_1))) else (seq (bind (p_has_listeners P) (fun b_2 => if truthy b_2 then (p_notify_newresponse P) else ret b_2)) (ret response_1)))))) (seq (gen_finish_request P) (ret 0)))).
 (* pyramid/threadlocal.py:RequestContext.begin *)
 Definition gen_rc_begin (P : prims) : M :=
   (seq (p_push P) (ret 0)).
@@ -30,10 +30,16 @@ Definition gen_default_execution_policy (P : prims) : M :=
   (seq (gen_request_context P) (bind (gen_rc_enter P) (fun entered_1 => finally (gen_invoke_request P true) (gen_rc_exit P)))).
 (* pyramid/router.py:Router.invoke_subrequest *)
 Definition gen_invoke_subrequest (P : prims) (tw : bool) : M :=
-  (bind (p_has_extensions P) (fun b_3 => if truthy b_3 then (seq (p_setup P) (seq (ret 0) (bind (gen_rc_enter P) (fun entered_1 => finally (gen_invoke_request P tw) (gen_rc_exit P))))) else (seq (ret 0) (bind (gen_rc_enter P) (fun entered_2 => finally (gen_invoke_request P tw) (gen_rc_exit P)))))).
+  (bind (p_has_extensions P) (fun b_2 => if truthy b_2 then (seq (p_setup P) (seq (ret 0) (bind (gen_rc_enter P) (fun entered_1 => finally (gen_invoke_request P tw) (gen_rc_exit P))))) else (seq (ret 0) (bind (gen_rc_enter P) (fun entered_1 => finally (gen_invoke_request P tw) (gen_rc_exit P)))))).
+(* pyramid/router.py:Router.handle_request *)
+Definition gen_handle_request (P : prims) : M :=
+  (seq (bind (p_has_listeners P) (fun b_1 => if truthy b_1 then (p_notify_newrequest P) else ret b_1)) (bind (p_has_mapper P) (fun b_8 => if truthy b_8 then (bind (p_routes_mapper P) (fun info_2 => (if (N.eqb info_2 0) then (seq (bind (p_has_listeners P) (fun b_3 => if truthy b_3 then (p_notify_beforetraversal P) else ret b_3)) (bind (p_root_factory P) (fun root_4 => (bind (p_traverser P) (fun tdict_5 => (seq (bind (p_has_listeners P) (fun b_6 => if truthy b_6 then (p_notify_contextfound P) else ret b_6)) (bind (p_call_view P) (fun response_7 => (if (N.eqb response_7 0) then (raise (p_exc_notfound P)) else (ret response_7)))))))))) else (seq (bind (p_has_listeners P) (fun b_3 => if truthy b_3 then (p_notify_beforetraversal P) else ret b_3)) (bind (p_route_factory P) (fun root_4 => (bind (p_traverser P) (fun tdict_5 => (seq (bind (p_has_listeners P) (fun b_6 => if truthy b_6 then (p_notify_contextfound P) else ret b_6)) (bind (p_call_view P) (fun response_7 => (if (N.eqb response_7 0) then (raise (p_exc_notfound P)) else (ret response_7))))))))))))) else (seq (bind (p_has_listeners P) (fun b_2 => if truthy b_2 then (p_notify_beforetraversal P) else ret b_2)) (bind (p_root_factory P) (fun root_3 => (bind (p_traverser P) (fun tdict_4 => (seq (bind (p_has_listeners P) (fun b_5 => if truthy b_5 then (p_notify_contextfound P) else ret b_5)) (bind (p_call_view P) (fun response_6 => (if (N.eqb response_6 0) then (raise (p_exc_notfound P)) else (ret response_6))))))))))))).
+(* pyramid/view.py:ViewMethodsMixin.invoke_exception_view *)
+Definition gen_invoke_exception_view (P : prims) (exc : N) (reraise : bool) : M :=
+  (bind (bind (finally (bind (seq (p_push P) (bind (finally (catch (bind (p_call_exception_view P exc) (fun response_1 => (ret response_1))) (fun e_2 => (if reraise then (raise exc) else (raise e_2)))) (seq (p_pop P) (ret 0))) (fun response_3 => (ret response_3)))) (fun yielded_1001 => (ret yielded_1001))) (ret 0)) (fun yielded_1002 => (ret yielded_1002))) (fun response_4 => (if (N.eqb response_4 0) then (if reraise then (raise exc) else (raise (p_exc_notfound P))) else (ret response_4)))).
 (* pyramid/tweens.py:_error_handler *)
 Definition gen_error_handler (P : prims) (exc : N) : M :=
-  (bind (catch (bind (p_invoke_exception_view P exc) (fun response_1 => (ret response_1))) (fun e_2 => (if p_is_notfound P e_2 then (raise exc) else (raise e_2)))) (fun response_3 => (ret response_3))).
+  (bind (catch (bind (gen_invoke_exception_view P exc false) (fun response_1 => (ret response_1))) (fun e_2 => (if p_is_notfound P e_2 then (raise exc) else (raise e_2)))) (fun response_3 => (ret response_3))).
 (* pyramid/tweens.py:excview_tween_factory.excview_tween *)
 Definition gen_excview_tween (P : prims) : M :=
   (bind (catch (bind (p_handler P) (fun response_1 => (ret response_1))) (fun e_2 => (bind (gen_error_handler P e_2) (fun response_3 => (ret response_3))))) (fun response_4 => (ret response_4))).
@@ -48,5 +54,7 @@ Definition gen_excview_tween (P : prims) : M :=
 #[global] Hint Unfold gen_request_context : c13gen.
 #[global] Hint Unfold gen_default_execution_policy : c13gen.
 #[global] Hint Unfold gen_invoke_subrequest : c13gen.
+#[global] Hint Unfold gen_handle_request : c13gen.
+#[global] Hint Unfold gen_invoke_exception_view : c13gen.
 #[global] Hint Unfold gen_error_handler : c13gen.
 #[global] Hint Unfold gen_excview_tween : c13gen.
